@@ -26,10 +26,15 @@ pub struct Expected { _x: u8 }
 pub struct Context { _x: u8 }
 pub struct TypeErr { _x: u8 }
 pub struct Identifier { _x: u8 }
+pub struct Class { _x: u8 }
+#[derive(Clone, Debug, Default)]
 pub struct VarMapping { _x: u8 }
 pub struct ConstrBuilder { pub var_mapping: VarMapping }
-#[derive(Clone)]
-pub struct Environment { _x: u8 }
+//@@ TYPE src/check/constrain/generate/env.rs | struct | Environment | retype=raises_caught:OpaqueRaises | retype=unassigned:OpaqueUnassigned | retype=vars:OpaqueVars
+/// stand-ins for the HashSet / HashMap fields of Environment (outside the subset)
+#[derive(Clone, Debug, Default)] pub struct OpaqueRaises { _x: u8 }
+#[derive(Clone, Debug, Default)] pub struct OpaqueUnassigned { _x: u8 }
+#[derive(Clone, Debug, Default)] pub struct OpaqueVars { _x: u8 }
 pub type TypeResult<T> = Result<T, Vec<TypeErr>>;
 pub type Constrained<T = Environment> = Result<T, Vec<TypeErr>>;
 
@@ -49,10 +54,15 @@ verus! {
 #[verifier::external_type_specification] #[verifier::external_body] pub struct ExIdentifier(Identifier);
 #[verifier::external_type_specification] #[verifier::external_body] pub struct ExVarMapping(VarMapping);
 #[verifier::external_type_specification] pub struct ExConstrBuilder(ConstrBuilder);
-#[verifier::external_type_specification] #[verifier::external_body] pub struct ExEnvironment(Environment);
+#[verifier::external_type_specification] pub struct ExEnvironment(Environment);
+#[verifier::external_type_specification] #[verifier::external_body] pub struct ExOpaqueRaises(OpaqueRaises);
+#[verifier::external_type_specification] #[verifier::external_body] pub struct ExOpaqueUnassigned(OpaqueUnassigned);
+#[verifier::external_type_specification] #[verifier::external_body] pub struct ExOpaqueVars(OpaqueVars);
+#[verifier::external_type_specification] #[verifier::external_body] pub struct ExClass(Class);
 
+pub assume_specification[<Expected as Clone>::clone](t: &Expected) -> (r: Expected) ensures r == *t;
 pub assume_specification[<Name as Clone>::clone](t: &Name) -> (r: Name) ensures r == *t;
-pub assume_specification[<Environment as Clone>::clone](t: &Environment) -> (r: Environment);
+pub assume_specification[<Environment as Clone>::clone](t: &Environment) -> (r: Environment) ensures r == *t;
 #[verifier::external_body] pub fn verif_opaque_string() -> String { unimplemented!() }
 #[verifier::external_body] pub fn verif_havoc<T>() -> T { unimplemented!() }
 
@@ -86,9 +96,15 @@ impl AST {
     #[verifier::external_body]
     pub fn new(pos: Position, node: Node) -> (r: AST) ensures r.pos == pos, r.node == node { unimplemented!() }
 }
+/// the Name a type annotation denotes (Name::try_from(&AST), iterator code): a function of the annotation
+pub uninterp spec fn name_of(a: AST) -> Name;
 impl Name {
     #[verifier::external_body]
     pub fn tuple(names: &[Name]) -> Name { unimplemented!() }
+    #[verifier::external_body]
+    pub fn try_from(a: &Box<AST>) -> (r: TypeResult<Name>)
+        ensures r matches Ok(n) ==> n == name_of(**a), r is Err ==> r->Err_0@.len() >= 1,
+    { unimplemented!() }
 }
 impl TypeErr {
     #[verifier::external_body]
@@ -96,18 +112,25 @@ impl TypeErr {
 }
 impl Identifier {
     #[verifier::external_body]
-    pub fn try_from(var: &AST) -> TypeResult<Identifier> { unimplemented!() }
+    pub fn try_from(var: &AST) -> (r: TypeResult<Identifier>) ensures r is Err ==> r->Err_0@.len() >= 1 { unimplemented!() }
     #[verifier::external_body]
     pub fn as_mutable(&self, mutable: bool) -> Identifier { unimplemented!() }
     /// A-EXT: an identifier has at least one field (the code panics otherwise: "cannot have empty identifier")
     #[verifier::external_body]
     pub fn fields(&self, pos: Position) -> (r: TypeResult<Vec<(bool, String)>>)
-        ensures r matches Ok(v) ==> v@.len() >= 1,
+        ensures r matches Ok(v) ==> v@.len() >= 1, r is Err ==> r->Err_0@.len() >= 1,
     { unimplemented!() }
 }
 impl Environment {
-    #[verifier::external_body]
-    pub fn is_expr(&self, is_expr: bool) -> Environment { unimplemented!() }
+//@@ FN src/check/constrain/generate/env.rs | impl Environment | is_expr
+    ensures r == (Environment { is_expr: is_expr, ..*self }),                    //# frame_only_is_expr [C06]
+//@@ END
+//@@ FN src/check/constrain/generate/env.rs | impl Environment | in_fun
+    ensures r == (Environment { in_fun: in_fun, ..*self }),                      //# frame_only_in_fun [C06]
+//@@ END
+//@@ FN src/check/constrain/generate/env.rs | impl Environment | return_type
+    ensures r == (Environment { return_type: Some(*return_type), ..*self }),     //# return_type_is_recorded [C06]
+//@@ END
     #[verifier::external_body]
     pub fn insert_var(&self, mutable: bool, var: &str, expect: &Expected, var_mapping: &VarMapping) -> Environment { unimplemented!() }
 }
@@ -128,13 +151,14 @@ impl ConstrBuilder {
 /// the recursive constraint generator: may add constraints, never removes any (A-EXT)
 #[verifier::external_body]
 pub fn generate(ast: &AST, env: &Environment, ctx: &Context, constr: &mut ConstrBuilder) -> (r: Constrained)
-    ensures grows(*old(constr), *final(constr)),
+    ensures grows(*old(constr), *final(constr)), r is Err ==> r->Err_0@.len() >= 1,
+        forall|p: Expected, c: Expected| has(*old(constr), p, c) ==> has(*final(constr), p, c) /* consequence of grows (lemma_grows_keeps), stated for the solver */,
 { unimplemented!() }
 /// HAVOCKED loops (HashMap iteration over match_name's result; itertools enumerate/zip over tuple elements): they
 /// update the environment and may add constraints
 #[verifier::external_body]
 pub fn verif_havoc_loop(constr: &mut ConstrBuilder, env: &mut Environment) -> (r: TypeResult<()>)
-    ensures grows(*old(constr), *final(constr)),
+    ensures grows(*old(constr), *final(constr)), r is Err ==> r->Err_0@.len() >= 1,
 { unimplemented!() }
 
 /// the temp names the havocked loop over `fields` pushes: one per field
@@ -187,6 +211,76 @@ pub open spec fn def_post(var: AST, ty: Option<Name>, expr: Option<Box<AST>>, b:
     ensures
         grows(*old(constr), *final(constr)),                                     //# constraints_are_never_dropped [C06]
         r is Ok ==> def_post(*var, *ty, *expr, *final(constr)),                  //# definition_constraints_are_generated [C06]
+        r is Err ==> r->Err_0@.len() >= 1,                                       //# rejection_carries_a_diagnostic [C19]
+//@@ END
+
+// ---- return statements (C06 "as return value of a function returning T") ---------------------------------------------------
+pub open spec fn stmt_post(ast: AST, env: Environment, r: Constrained, b0: ConstrBuilder, b1: ConstrBuilder) -> bool {
+    match ast.node {
+        // `return e` inside a function with a declared return type T: T >= e is recorded; outside such a function it
+        // is rejected
+        Node::Return { expr } => match env.return_type {
+            Some(t) => r is Ok ==> has(b1, t, exp_of(*expr)),
+            None => r is Err,
+        },
+        // a bare `return` in a function that declares a return type is rejected
+        Node::ReturnEmpty => env.return_type is Some ==> r is Err,
+        _ => true,
+    }
+}
+
+/// HAVOCKED: the Raise arm of gen_stmt (HashSet::from_iter + check_raises_caught, a filter/any closure chain)
+#[verifier::external_body]
+pub fn verif_havoc_raise_arm(env: &Environment) -> (r: Constrained) ensures r is Err ==> r->Err_0@.len() >= 1 { unimplemented!() }
+
+//@@ FN src/check/constrain/generate/statement.rs | free | gen_stmt | props=C06,C03
+//@@ REPLACE
+//@@< Node::Raise { error } => match &error.node { $$ },
+//@@> Node::Raise { error } => verif_havoc_raise_arm(env),
+    ensures
+        grows(*old(constr), *final(constr)),                                     //# constraints_are_never_dropped [C06]
+        stmt_post(*ast, *env, r, *old(constr), *final(constr)),                  //# returned_value_is_bounded_by_the_declared_return_type [C06]
+        r is Err ==> r->Err_0@.len() >= 1,                                       //# rejection_carries_a_diagnostic [C19]
+//@@ END
+
+// ---- function definitions (C06 "as return value"; the body of a function is bounded by its declared return type) ---------
+/// HAVOCKED preamble of gen_def's FunDef arm (constructor field bookkeeping, constrain_args, raises: iterator chains)
+#[verifier::external_body]
+pub fn verif_havoc_fundef_preamble(env: &Environment, constr: &mut ConstrBuilder) -> (r: TypeResult<(Option<Class>, Environment)>)
+    ensures grows(*old(constr), *final(constr)), r is Err ==> r->Err_0@.len() >= 1,
+{ unimplemented!() }
+/// HAVOCKED: "non nullable attribute not assigned to in constructor" check (closure chain over a HashSet)
+#[verifier::external_body]
+pub fn verif_havoc_unassigned_check(class: &Class, body_env: &Environment) -> (r: TypeResult<()>)
+    ensures r is Err ==> r->Err_0@.len() >= 1,
+{ unimplemented!() }
+
+pub open spec fn fundef_constr_post(ast: AST, b: ConstrBuilder) -> bool {
+    match ast.node {
+        Node::FunDef { id, args, ret, raises, body, pure } => match (body, ret) {
+            // `def f(..) -> T => body`: T >= body is recorded
+            (Some(bd), Some(t)) => has(b, type_exp(bd.pos, name_of(*t)), exp_of(*bd)),
+            _ => true,
+        },
+        Node::VariableDef { mutable, var, ty, expr, forward } => match ty {
+            Some(t) => def_post(*var, Some(name_of(*t)), expr, b),
+            None => def_post(*var, None, expr, b),
+        },
+        _ => true,
+    }
+}
+
+//@@ FN src/check/constrain/generate/definition.rs | free | gen_def | props=C06,C03
+//@@ REPLACE
+//@@< let (class, non_nullable_class_vars) = match &id.node { $$ }; $$ let body_env = body_env.raises_caught(&raises);
+//@@> let (class, body_env) = verif_havoc_fundef_preamble(env, constr)?;
+//@@ REPLACE
+//@@< if let Some(class) = class { $$ }
+//@@> if let Some(class) = class { verif_havoc_unassigned_check(&class, &body_env)?; }
+    ensures
+        grows(*old(constr), *final(constr)),                                     //# constraints_are_never_dropped [C06]
+        r is Ok ==> fundef_constr_post(*ast, *final(constr)),                    //# body_is_bounded_by_the_declared_return_type [C06]
+        r is Err ==> r->Err_0@.len() >= 1,                                       //# rejection_carries_a_diagnostic [C19]
 //@@ END
 
 } // verus!
